@@ -46,13 +46,13 @@ MOf(e) == [kind |-> e.op, chart |-> IF e.chart = "" THEN "none" ELSE e.chart,
            replace |-> e.flags.replace, atomic |-> e.flags.atomic, cleanup |-> e.flags.cleanupOnFail,
            keep |-> e.flags.keepHistory, nohooks |-> e.flags.noHooks, lim |-> e.flags.maxHistory,
            ver |-> e.flags.version, dry |-> e.flags.dryRun, takeown |-> e.flags.takeOwnership,
-           clientOnly |-> e.flags.clientOnly, createNS |-> e.flags.createNamespace, skipCRDs |-> e.flags.skipCRDs]
+           clientOnly |-> e.flags.clientOnly, createNS |-> e.flags.createNamespace, skipCRDs |-> e.flags.skipCRDs, force |-> e.flags.force]
 
 LabOf(e) == [p |-> e.proc, ev |-> e.ev, kind |-> e.kind, verb |-> e.verb, id |-> e.id, ok |-> e.ok, inj |-> e.inj]
 
 NoU == [kind |-> "none", chart |-> "none", replace |-> FALSE, atomic |-> FALSE, cleanup |-> FALSE,
         keep |-> FALSE, nohooks |-> FALSE, lim |-> 0, ver |-> 0, dry |-> FALSE, takeown |-> FALSE,
-        clientOnly |-> FALSE, createNS |-> FALSE, skipCRDs |-> FALSE]
+        clientOnly |-> FALSE, createNS |-> FALSE, skipCRDs |-> FALSE, force |-> FALSE]
 NoSum == [u |-> NoU, ok |-> FALSE, crs |-> {}, flt |-> {}, posted |-> {}, log |-> <<>>, active |-> FALSE,
           sub |-> FALSE, fsub |-> FALSE]
 NoState == [store |-> [r \in MonRev |-> NoRecM], cluster |-> [o \in AllIds |-> AbsentM]]
